@@ -633,6 +633,12 @@ impl OperatorAxis for ReduceMean {
     }
 }
 
+/// Test if a `scale` or `bias` constant is a scalar or vector, as required by
+/// the normalization operators for normalization over the last axis.
+fn is_scalar_or_vector(graph: &Graph, node_id: Option<NodeId>) -> bool {
+    node_id.is_none_or(|id| graph.get_rank(id).is_some_and(|rank| rank <= 1))
+}
+
 impl OperatorAxis for Softmax {
     fn get_axis(&self) -> Option<i32> {
         Some(self.axis as i32)
@@ -731,6 +737,12 @@ impl PatternFusion for LayerNormalizationFusion {
             return Err(FusionError::CheckFailed("not applied to last axis"));
         }
 
+        if !is_scalar_or_vector(graph, pat_match.node_id("scale"))
+            || !is_scalar_or_vector(graph, pat_match.node_id("bias"))
+        {
+            return Err(FusionError::CheckFailed("scale or bias is not a vector"));
+        }
+
         let epsilon_input = pat_match.node_id("epsilon").unwrap();
         let epsilon = graph
             .get_scalar(epsilon_input)
@@ -793,6 +805,10 @@ impl PatternFusion for RMSNormalizationFusion {
 
         if !op_applied_to_last_axis::<ReduceMean>(graph, norm_mean) {
             return Err(FusionError::CheckFailed("not applied to last axis"));
+        }
+
+        if !is_scalar_or_vector(graph, rms_match.node_id("scale")) {
+            return Err(FusionError::CheckFailed("scale is not a vector"));
         }
 
         Ok(RMSNormalization {
